@@ -60,7 +60,7 @@ def held_by_attached(obs):
     return held
 
 
-def analyse(obs_list, scratch):
+def analyse(obs_list, scratch, adopted=None):
     last = obs_list[-1]
     written = set()
     for o in obs_list[:-1]:
@@ -68,6 +68,11 @@ def analyse(obs_list, scratch):
             written.update(w[1] for w in p["writes"])
     out = {}
     orphans = sorted(k for k in last.fs if k not in scratch.fs)
+    if adopted is not None:
+        # files the plans of an earlier build declared static are the user's from then on
+        kept = [k for k in orphans if last.fs[k] != "dir" and adopted(k)]
+        keep_dirs = {k[: i + 1] for k in kept for i, ch in enumerate(k) if ch == "/"}
+        orphans = [k for k in orphans if k not in kept and k not in keep_dirs]
     # "unless an active step still uses it as an input"
     used = {p for s, ins in last.db_inputs.items() if not last.db_steps.get(s, {}).get("detached")
             for p, _ in ins}
@@ -114,7 +119,9 @@ def run_job(spec):
         final_declared = {p for outs in last.db_outputs.values() for p in outs}
         if written - {p for p in scratch.fs}:
             acc.nontrivial.add(h8([fam, labels]))
-        found = analyse(obs_list, scratch)
+        from .c01 import adopted_paths
+
+        found = analyse(obs_list, scratch, adopted_paths(descs))
         orphans = found.get("orphan-file") or found.get("orphan-dir")
         stray = found.get("stray-node")
         for kind, detail in found.items():
@@ -124,10 +131,16 @@ def run_job(spec):
                 if len(ol) < len(cand) or ol[-1].rc_class != "success":
                     return False
                 sc = hist.scratch_build(cand[-1], CFG)
-                return sc.rc_class == "success" and kind in analyse(ol, sc)
+                return sc.rc_class == "success" and kind in analyse(ol, sc, adopted_paths(cand))
 
             small = hist.shrink(descs, violates)
-            acc.violation(f"C07|{fam}|{kind}|{hist.history_label(small)}",
+            key = f"C07|{fam}|{kind}|{hist.history_label(small)}"
+            if (fam == "f_subplan" and kind in ("orphan-file", "orphan-dir")
+                    and any(d.get("knobs", {}).get("inputs") == "tree" for d in small)
+                    and all(x.startswith("sub/out") for x in detail)):
+                # one root cause under many histories: a static tree adopts the detached output
+                key = f"C07|f_subplan|static-tree-adopts-output|{kind}"
+            acc.violation(key,
                           {"family": fam, "edits": labels, "minimal_history": hist.history_label(small),
                            kind: detail, "exec": describe(last, 30)},
                           {"check": "C07", "descs": small, "labels": labels})
